@@ -90,17 +90,23 @@ int main(int argc, char **argv) {
 '''
 
 
-def build(ctx):
-    kb = KernelBuild(ID, TITLE)
+def truncate_with_contract(kb, what=ID):
+    """C text of ValueFlow::truncateIntValue with its contract (used by K01 and, as a replaced callee, by K44); returns (text, rules fired)"""
     loc = extract.locate_function("lib/vf_common.cpp", r'^\s*MathLib::bigint\s+truncateIntValue\s*\(')
     kb.add_located("ValueFlow::truncateIntValue", loc)
-    enums, _ = _common.valuetype_enums()
     text, n = located_rules(loc, _common.VT_RULES + [
         (r'std::numeric_limits<\s*biguint\s*>::max\(\)', 'ULLONG_MAX', 1, 1),
-    ], ID)
-    kb.rules_fired = n
+    ], what)
     sig, body = extract.body_of(text)
-    extract.residue_scan(text, ID)
+    extract.residue_scan(text, what)
+    return sig + CONTRACT + body + "\n", n
+
+
+def build(ctx):
+    kb = KernelBuild(ID, TITLE)
+    enums, _ = _common.valuetype_enums()
+    trunc_text, n = truncate_with_contract(kb)
+    kb.rules_fired = n
     # K01c: the call site in truncateValues (lib/valueflow.cpp) - the per-value block of its loop, with the callee replaced by its contract
     import re
     f = extract.locate_function("lib/valueflow.cpp", r'^static std::list<ValueFlow::Value> truncateValues\s*\(')
@@ -132,7 +138,7 @@ def build(ctx):
     callsite = ("enum VVType { VV_INT, VV_FLOAT, VV_OTHER };\nstruct VValue { enum VVType vtype; _Bool impossible; bigint intvalue; double floatValue; };\n"
                 "void truncateValues_block(struct VValue *v, const size_t sz, enum Sign dst_sign)\n{\n%s\n}\n" % extract.strip_comments(tc))
     extract.residue_scan(callsite, ID)
-    kb.ctext = _common.BASE + enums + sig + CONTRACT + body + "\n" + callsite + HARNESS + HARNESS_CALLSITE
+    kb.ctext = _common.BASE + enums + trunc_text + callsite + HARNESS + HARNESS_CALLSITE
     kb.job("callsite.truncateValues", "h_callsite", replace=["truncateIntValue"],
            note="per-value block of truncateValues with truncateIntValue replaced by its contract (its precondition value_size <= 8 is checked at the call)")
     kb.job("callsite.cover", "h_callsite_cover", kind="cover", replace=["truncateIntValue"])
